@@ -477,7 +477,15 @@ def rule_K1(ctx) -> None:
         ctx.refuted("K1", "INT_64_TYPES", f"diff={sorted(i64 ^ SPEC_INT64_JSON)}", M_INIT, f"INT_64_TYPES differs from the five 64-bit kinds by {sorted(i64 ^ SPEC_INT64_JSON)}: those are (not) emitted as JSON strings",
                     "M(x=2**60).to_json() for the affected kind")
     td = mod.func("Message.to_dict")
-    b64 = {(n.func.id if isinstance(n.func, ast.Name) else n.func.attr) for n in ast.walk(td) if isinstance(n, ast.Call)
+    # (the emitter and the module-level helpers it hands scalars to)
+    scope_ = [td]
+    for _ in range(2):
+        for f_ in list(scope_):
+            for c_ in ast.walk(f_):
+                if isinstance(c_, ast.Call) and isinstance(c_.func, ast.Name) and mod.has(c_.func.id) and isinstance(mod.defs[c_.func.id][0], ast.FunctionDef) \
+                        and all(mod.func(c_.func.id) is not x for x in scope_):
+                    scope_.append(mod.func(c_.func.id))
+    b64 = {(n.func.id if isinstance(n.func, ast.Name) else n.func.attr) for f_ in scope_ for n in ast.walk(f_) if isinstance(n, ast.Call)
            and isinstance(n.func, (ast.Name, ast.Attribute)) and "b64" in (n.func.id if isinstance(n.func, ast.Name) else n.func.attr)}
     if b64 and b64 <= {"b64encode", "base64.b64encode", "standard_b64encode", "base64.standard_b64encode"}:
         ctx.proved("K1", "bytes:standard-base64", mod.loc(td))
